@@ -43,4 +43,67 @@ package keeper
 //@   theory strings
 //@   ensures deploymentKeyOf(d) != groupKeyOf(g)
 
+// ---- C04 / C16: keeper operations = exact store update + exactly one typed event ----
+//@ spec depOf(val: map[str]str, id: types.DeploymentID): types.Deployment = decode(types.Deployment, val[deploymentKeyOf(id)])
+//@ spec grpOf(val: map[str]str, id: types.GroupID): types.Group = decode(types.Group, val[groupKeyOf(id)])
+
+//@ func (Keeper).GetDeployment
+//@   ensures result1 <==> KVhas[k.skey][deploymentKeyOf(id)]
+//@   ensures result1 ==> result0 == depOf(KVval[k.skey], id)
+//@ func (Keeper).GetGroup
+//@   ensures result1 <==> KVhas[k.skey][groupKeyOf(id)]
+//@   ensures result1 ==> result0 == grpOf(KVval[k.skey], id)
+//@ func (Keeper).GetGroups
+//@   modifies ghost It_all
+//@   ensures [len] len(result) == enumLen(KVhas[k.skey], groupsKeyOf(id))
+//@   ensures [elems] forall j: int :: 0 <= j && j < len(result) ==> result[j] == decode(types.Group, KVval[k.skey][enumKey(KVhas[k.skey], groupsKeyOf(id), j)])
+//@   loop 1 invariant ItHas[iter] == KVhas[k.skey] && ItVal[iter] == KVval[k.skey] && ItPrefix[iter] == groupsKeyOf(id)
+//@   loop 1 invariant ItPos[iter] == len(vals) && len(vals) <= enumLen(KVhas[k.skey], groupsKeyOf(id))
+//@   loop 1 invariant forall j: int :: 0 <= j && j < len(vals) ==> vals[j] == decode(types.Group, KVval[k.skey][enumKey(KVhas[k.skey], groupsKeyOf(id), j)])
+//@   loop 1 invariant cap(vals) > 0 ==> fresh(vals) && freshloop(vals)
+
+//@ func (Keeper).UpdateDeployment
+//@   modifies ghost KVhas, ghost KVval, ghost G, ghost EvN, ghost EvLog
+//@   ensures [missing] !old(KVhas)[k.skey][deploymentKeyOf(deployment.DeploymentID)] ==> result != nil && KVhas == old(KVhas) && KVval == old(KVval) && EvN == old(EvN)
+//@   ensures [updated] old(KVhas)[k.skey][deploymentKeyOf(deployment.DeploymentID)] ==> result == nil && KVhas == old(KVhas)
+//@                && KVval == old(KVval)[k.skey := old(KVval)[k.skey][deploymentKeyOf(deployment.DeploymentID) := encode(deployment)]]
+//@                && EvN == old(EvN) + 1 && EvLog == old(EvLog)[old(EvN) := sigDeployment(2, deployment.DeploymentID)]
+//@ func (Keeper).CloseDeployment
+//@   modifies ghost KVhas, ghost KVval, ghost G, ghost EvN, ghost EvLog
+//@   ensures [noop] deployment.State == types.DeploymentClosed || !old(KVhas)[k.skey][deploymentKeyOf(deployment.DeploymentID)] ==>
+//@                KVhas == old(KVhas) && KVval == old(KVval) && EvN == old(EvN)
+//@   ensures [closed] deployment.State != types.DeploymentClosed && old(KVhas)[k.skey][deploymentKeyOf(deployment.DeploymentID)] ==> KVhas == old(KVhas)
+//@                && KVval == old(KVval)[k.skey := old(KVval)[k.skey][deploymentKeyOf(deployment.DeploymentID) := encode(upd(deployment, State, types.DeploymentClosed))]]
+//@                && EvN == old(EvN) + 1 && EvLog == old(EvLog)[old(EvN) := sigDeployment(3, deployment.DeploymentID)]
+//@ func (Keeper).OnCloseGroup
+//@   modifies ghost KVhas, ghost KVval, ghost G, ghost EvN, ghost EvLog
+//@   ensures [missing] !old(KVhas)[k.skey][groupKeyOf(group.GroupID)] ==> result != nil && KVhas == old(KVhas) && KVval == old(KVval) && EvN == old(EvN)
+//@   ensures [closed] old(KVhas)[k.skey][groupKeyOf(group.GroupID)] ==> result == nil && KVhas == old(KVhas)
+//@                && KVval == old(KVval)[k.skey := old(KVval)[k.skey][groupKeyOf(group.GroupID) := encode(upd(group, State, state))]]
+//@                && EvN == old(EvN) + 1 && EvLog == old(EvLog)[old(EvN) := sigGroup(1, group.GroupID)]
+//@ func (Keeper).OnPauseGroup
+//@   modifies ghost KVhas, ghost KVval, ghost G, ghost EvN, ghost EvLog
+//@   ensures [missing] !old(KVhas)[k.skey][groupKeyOf(group.GroupID)] ==> result != nil && KVhas == old(KVhas) && KVval == old(KVval) && EvN == old(EvN)
+//@   ensures [paused] old(KVhas)[k.skey][groupKeyOf(group.GroupID)] ==> result == nil && KVhas == old(KVhas)
+//@                && KVval == old(KVval)[k.skey := old(KVval)[k.skey][groupKeyOf(group.GroupID) := encode(upd(group, State, types.GroupPaused))]]
+//@                && EvN == old(EvN) + 1 && EvLog == old(EvLog)[old(EvN) := sigGroup(2, group.GroupID)]
+//@ func (Keeper).OnStartGroup
+//@   modifies ghost KVhas, ghost KVval, ghost G, ghost EvN, ghost EvLog
+//@   ensures [missing] !old(KVhas)[k.skey][groupKeyOf(group.GroupID)] ==> result != nil && KVhas == old(KVhas) && KVval == old(KVval) && EvN == old(EvN)
+//@   ensures [started] old(KVhas)[k.skey][groupKeyOf(group.GroupID)] ==> result == nil && KVhas == old(KVhas)
+//@                && KVval == old(KVval)[k.skey := old(KVval)[k.skey][groupKeyOf(group.GroupID) := encode(upd(group, State, types.GroupOpen))]]
+//@                && EvN == old(EvN) + 1 && EvLog == old(EvLog)[old(EvN) := sigGroup(3, group.GroupID)]
+//@ func (Keeper).OnBidClosed
+//@   modifies ghost KVhas, ghost KVval, ghost G, ghost EvN, ghost EvLog
+//@   ensures [missing] !old(KVhas)[k.skey][groupKeyOf(id)] ==> result != nil && KVhas == old(KVhas) && KVval == old(KVval) && EvN == old(EvN)
+//@   ensures [paused] old(KVhas)[k.skey][groupKeyOf(id)] && grpOf(old(KVval)[k.skey], id).GroupID == id ==> result == nil && KVhas == old(KVhas)
+//@                && KVval == old(KVval)[k.skey := old(KVval)[k.skey][groupKeyOf(id) := encode(upd(grpOf(old(KVval)[k.skey], id), State, types.GroupPaused))]]
+//@                && EvN == old(EvN) + 1 && EvLog == old(EvLog)[old(EvN) := sigGroup(2, id)]
+//@ func (Keeper).OnLeaseClosed
+//@   ensures (result1 == nil) <==> KVhas[k.skey][groupKeyOf(id)]
+//@   ensures result1 == nil ==> result0 == grpOf(KVval[k.skey], id)
+
+//@ property C04 := (Keeper).GetDeployment#*, (Keeper).GetGroup#*, (Keeper).GetGroups#*, (Keeper).UpdateDeployment#*, (Keeper).CloseDeployment#*,
+//@                 (Keeper).OnCloseGroup#*, (Keeper).OnPauseGroup#*, (Keeper).OnStartGroup#*, (Keeper).OnBidClosed#*, (Keeper).OnLeaseClosed#*
+
 //@ property C06 := deploymentKey#*, groupKey#*, groupsKey#*, lemma:deploymentKeyInj, lemma:groupKeyInj, lemma:groupsExact, lemma:dkindsDisjoint
